@@ -234,6 +234,19 @@ fn vec_check(ctx: &mut Ctx) {
         ctx.random("large-vectors", "vec", &|| vec_gen::case(&big), &run, n);
     }
     let _ = ALL_KINDS;
+    if prop == Prop::C20 {
+        // the observable histories (C01-C03, C16, C19 generators) with the instrumented value type
+        let run_o = move |c: &ObsCase| engine_obs::run(c, prop);
+        ctx.regress_dir("regress", "obs", &run_o);
+        let g1 = ObsGen { flavours: vec![Fl::Sync, Fl::Async], w_handle: 10, w_sub: 10, ..ObsGen::default() };
+        let n = ctx.pick(200_000, 3_000_000);
+        ctx.random("observable-histories", "obs", &|| engine_obs::case(&g1), &run_o, n);
+        let l = if ctx.tier == crate::ctx::Tier::Thorough { 5 } else { 4 };
+        ctx.enumerated("observable-exhaustive-short-histories", "obs", engine_obs::enumerate(l, Fl::Sync, true), &run_o, Some(&format!("all observable call histories of <= {l} operations from the 22-operation alphabet x unique/shared start")));
+        let run_a = move |c: &crate::engine_async::AsyncCase| crate::engine_async::run(c, prop);
+        let n = ctx.pick(60_000, 1_000_000);
+        ctx.random("async-guards", "async", &|| crate::engine_async::case(), &run_a, n);
+    }
     if let Some((_, g, _, _)) = vec_phases(prop).into_iter().next() {
         ctx.fuzz_phase("vec", &|b: &[u8]| crate::decode::vec_case(b, &g), &run, &|c: &VecCase| engine_vec::shrink(c, prop));
     }
@@ -310,6 +323,44 @@ fn obs_check(ctx: &mut Ctx) {
     for (name, cfg, q, t) in obs_phases(prop) {
         let n = ctx.pick(q, t);
         ctx.random(name, "obs", &|| engine_obs::case(&cfg), &run, n);
+    }
+    // bounded-exhaustive histories
+    let deep = ctx.tier == crate::ctx::Tier::Thorough;
+    match prop {
+        Prop::C01 | Prop::C02 => {
+            let l = if deep { 5 } else { 4 };
+            ctx.enumerated(
+                "exhaustive-short-histories",
+                "obs",
+                engine_obs::enumerate(l, Fl::Sync, false),
+                &run,
+                Some(&format!("all call histories of <= {l} operations from a 14-operation alphabet (5 setters, subscribe/subscribe_reset, polls via Stream and Next, next_now, get, clone, reset, drop of the owner) x unique/shared start")),
+            );
+        }
+        Prop::C03 | Prop::C19 => {
+            let l = if deep { 5 } else { 4 };
+            ctx.enumerated(
+                "exhaustive-short-histories",
+                "obs",
+                engine_obs::enumerate(l, Fl::Sync, true),
+                &run,
+                Some(&format!("all call histories of <= {l} operations from a 22-operation alphabet incl. clone/drop/downgrade/upgrade/into_shared and subscriber clones x unique/shared start")),
+            );
+            if prop == Prop::C19 {
+                ctx.enumerated("exhaustive-short-histories-async", "obs", engine_obs::enumerate(l - 1, Fl::Async, true), &run, Some(&format!("the same alphabet, <= {} operations, async-lock flavour", l - 1)));
+            }
+        }
+        Prop::C16 => {
+            let l = if deep { 5 } else { 4 };
+            ctx.enumerated(
+                "exhaustive-short-histories-both-flavours",
+                "obs",
+                engine_obs::enumerate(l, Fl::Both, false),
+                &run,
+                Some(&format!("all call histories of <= {l} operations from the 14-operation alphabet, run on both flavours and compared")),
+            );
+        }
+        _ => {}
     }
     let fl = if prop == Prop::C16 { Fl::Both } else { Fl::Sync };
     ctx.fuzz_phase("obs", &|b: &[u8]| crate::decode::obs_case(b, fl), &run, &|c: &ObsCase| engine_obs::shrink(c, prop));
@@ -422,4 +473,51 @@ fn c04(ctx: &mut Ctx) {
     let cfg = ObsGen { guards_pct: 100, w_guard: 12, w_handle: 2, ..ObsGen::default() };
     let n = ctx.pick(100_000, 2_000_000);
     ctx.random("guard-exclusion-single-thread", "obs", &|| engine_obs::case(&cfg), &run, n);
+}
+
+/// Run `n` generated cases of the property's first vector phase and of the observable generator
+/// sequentially on this thread (no runner threads, no files): for `cargo miri run`.
+pub fn mirirun(prop: Prop, n: u32, seed: u64) -> i32 {
+    use crate::campaign::guarded;
+    use crate::common::Stop;
+    use proptest::strategy::{Strategy, ValueTree};
+    use proptest::test_runner::{Config, RngSeed, TestRunner};
+    let mut runner = TestRunner::new(Config { failure_persistence: None, rng_seed: RngSeed::Fixed(seed ^ 0x5eed), ..Config::default() });
+    let mut done = 0u32;
+    if let Some((_, cfg, _, _)) = vec_phases(prop).into_iter().next() {
+        let cfg = GenCfg { max_ops: 12, ..cfg };
+        let strat = vec_gen::case(&cfg);
+        for _ in 0..n {
+            let case = strat.new_tree(&mut runner).expect("tree").current();
+            match guarded(&case, &|c: &VecCase| engine_vec::run(c, prop)) {
+                Err(Stop::Violation(m)) => {
+                    println!("VIOLATION-UNDER-MIRI {}: {m}\ncase: {}", prop.name(), serde_json::to_string(&case).unwrap_or_default());
+                    return 1;
+                }
+                Err(Stop::Internal(m)) => {
+                    eprintln!("INCONCLUSIVE: {m}");
+                    return 2;
+                }
+                _ => done += 1,
+            }
+        }
+    }
+    let og = ObsGen { guards_pct: 0, max_ops: 16, ..ObsGen::default() };
+    let strat = engine_obs::case(&og);
+    for _ in 0..n / 2 {
+        let case = strat.new_tree(&mut runner).expect("tree").current();
+        match guarded(&case, &|c: &ObsCase| engine_obs::run(c, prop)) {
+            Err(Stop::Violation(m)) => {
+                println!("VIOLATION-UNDER-MIRI {}: {m}\ncase: {}", prop.name(), serde_json::to_string(&case).unwrap_or_default());
+                return 1;
+            }
+            Err(Stop::Internal(m)) => {
+                eprintln!("INCONCLUSIVE: {m}");
+                return 2;
+            }
+            _ => done += 1,
+        }
+    }
+    println!("MIRI-OK cases={done}");
+    0
 }
